@@ -20,6 +20,7 @@
 (* State (one transfer of AMT tokens from a sender on A to a receiver on B):*)
 (*   commitment : the packet commitment exists on A                        *)
 (*   sbal       : sender's balance relative to before the send             *)
+(*   esc        : escrow account balance relative to before the send       *)
 (*   receipt    : B has received the packet                                *)
 (*   ack        : acknowledgement written on B: "none" | "succ" | "err"    *)
 (*   rbal       : vouchers minted to the receiver                          *)
@@ -62,11 +63,12 @@ G_Pre(S, a) ==
       [] a.type = "writeAck" -> S.ack = "none"
 
 Effect(S, a) ==
-    CASE a.type = "send"    -> [S EXCEPT !.commitment = TRUE, !.sbal = @ - AMT, !.cntA = Inc(@)]
+    CASE a.type = "send"    -> [S EXCEPT !.commitment = TRUE, !.sbal = @ - AMT, !.esc = @ + AMT, !.cntA = Inc(@)]
       [] a.type = "ack"     -> [S EXCEPT !.commitment = FALSE,
                                          !.sbal = IF S.ack = "err" THEN @ + AMT ELSE @,       \* refund on error acknowledgement
+                                         !.esc  = IF S.ack = "err" THEN @ - AMT ELSE @,
                                          !.cntA = IF Fails(a.beh) THEN @ ELSE Inc(@)]
-      [] a.type = "timeout" -> [S EXCEPT !.commitment = FALSE, !.sbal = @ + AMT,
+      [] a.type = "timeout" -> [S EXCEPT !.commitment = FALSE, !.sbal = @ + AMT, !.esc = @ - AMT,
                                          !.cntA = IF Fails(a.beh) THEN @ ELSE Inc(@)]
       [] a.type = "recv"    -> IF Fails(a.beh)
                                THEN [S EXCEPT !.receipt = TRUE, !.ack = "err"]                \* receive reverted, error ack
@@ -77,8 +79,8 @@ Step(S, a) == IF G_Pre(S, a) /\ TxOk(a) THEN [res |-> "ok", S |-> Effect(S, a)] 
 
 \* the situation each transaction type starts from (ackKind: what B acknowledged)
 PreState(type, ackKind, cA, cB) ==
-    LET base == [commitment |-> TRUE, sbal |-> 0 - AMT, receipt |-> FALSE, ack |-> "none", rbal |-> 0, cntA |-> cA, cntB |-> cB] IN
-    CASE type = "send"     -> [base EXCEPT !.commitment = FALSE, !.sbal = 0]
+    LET base == [commitment |-> TRUE, sbal |-> 0 - AMT, esc |-> AMT, receipt |-> FALSE, ack |-> "none", rbal |-> 0, cntA |-> cA, cntB |-> cB] IN
+    CASE type = "send"     -> [base EXCEPT !.commitment = FALSE, !.sbal = 0, !.esc = 0]
       [] type = "ack"      -> [base EXCEPT !.receipt = TRUE, !.ack = ackKind, !.rbal = IF ackKind = "succ" THEN AMT ELSE 0]
       [] type = "timeout"  -> base
       [] type = "recv"     -> base
